@@ -278,11 +278,12 @@ static void fresh_compare(const std::string& g, int ov, const Bytes& mine, const
 LAYER2(svd, (gm2calc::svd<R, S, M, N>(m, a...)), SVD_LAPACK, DESC);
 LAYER2(reorder_svd, (gm2calc::reorder_svd<R, S, M, N>(m, a...)), SVD_LAPACK, ASC);
 LAYER2(fs_svd, (gm2calc::fs_svd<R, S, M, N>(m, a...)), SVD_HK, ASC);
-struct fs_svd_rc {   // real m, complex u, v (convenience overloads used by the MSSM); values-only calls have no such overload
+struct fs_svd_rc {   // real m, complex u, v (convenience overloads used by the MSSM).  They cast m to complex; there is no values-only
+                     // convenience overload, so the values-only calls go to the same complex instantiation with the cast matrix
    template <class R, class S, int M, int N, class A1, class A2, class A3, class... A>
    static void f(const Eigen::Matrix<S, M, N>& m, A1& a1, A2& a2, A3& a3, A&... a) { gm2calc::fs_svd<R, M, N>(m, a1, a2, a3, a...); }
-   template <class R, class S, int M, int N, class A1> static void f(const Eigen::Matrix<S, M, N>& m, A1& a1) { gm2calc::fs_svd<R, S, M, N>(m, a1); }
-   template <class R, class S, int M, int N, class A1, class A2> static void f(const Eigen::Matrix<S, M, N>& m, A1& a1, A2& a2) { gm2calc::fs_svd<R, S, M, N>(m, a1, a2); }
+   template <class R, class S, int M, int N, class A1> static void f(const Eigen::Matrix<S, M, N>& m, A1& a1) { gm2calc::fs_svd<R, std::complex<R>, M, N>(m.template cast<std::complex<R> >().eval(), a1); }
+   template <class R, class S, int M, int N, class A1, class A2> static void f(const Eigen::Matrix<S, M, N>& m, A1& a1, A2& a2) { gm2calc::fs_svd<R, std::complex<R>, M, N>(m.template cast<std::complex<R> >().eval(), a1, a2); }
    static const char* name() { return "fs_svd_rc"; } static constexpr Conv conv = SVD_HK; static constexpr Order ord = ASC; };
 #define LAYER1(NAME, CALL, CONV, ORD) \
    struct NAME { template <class R, class S, int N, class... A> static void f(const Eigen::Matrix<S, N, N>& m, A&... a) { CALL; } \
